@@ -112,6 +112,10 @@ def make_grid(style: str, nt: int, tend: float, rng) -> np.ndarray:
         return np.concatenate([[0.0], np.cumsum(np.minimum(d, tend))])
     if style == "intdays":  # integer day counts (int64 array)
         return np.concatenate([[0], np.cumsum(rng.integers(1, 4, nt - 1))]).astype(np.int64)
+    if style == "intdays16":  # day counts in a narrow integer column (int16), monthly to bi-monthly reporting
+        steps = rng.integers(20, 61, nt - 1)
+        steps = steps[np.cumsum(steps) < 32000]
+        return np.concatenate([[0], np.cumsum(steps)]).astype(np.int16)
     if style == "f32":
         return (np.linspace(0, math.sqrt(tend), nt) ** 2).astype(np.float32)
     if style == "huge":  # very large steps
@@ -288,7 +292,9 @@ def run_config(cfg: dict, tid: int, max_levels: int = 400, want_residual: bool =
     rng = np.random.default_rng(cfg["seed"])
     obj, fp, tab = build_object(cfg)
     kind = cfg["kind"]
-    time = make_grid(cfg["grid"], cfg["nt"], cfg["tend"], rng) + cfg.get("shift", 0.0)
+    time = make_grid(cfg["grid"], cfg["nt"], cfg["tend"], rng)
+    if cfg.get("shift"):
+        time = time + cfg["shift"]   # (an integer or float32 grid keeps its dtype when there is no shift)
     pmin = float(np.sort(np.asarray(tab["pressure"], dtype=float))[1])
     sched = make_schedule(cfg.get("sched", "none"), len(time), cfg["pf"], cfg["pi"], max(pmin, 0.05 * cfg["pf"]), rng) \
         if kind == "single" else None
